@@ -182,6 +182,7 @@ class World:
         self.reload_log: list[dict] = []
         self.logs: list[tuple] = []
         self.live_generators = 0
+        self.read_log: dict[int, list] = {}
         self.generators_started = 0
         self.ended: str | None = None
         self.early_exit = False
@@ -358,6 +359,19 @@ class World:
             return r
 
         Configuration.reload = reload
+
+        # when each received message is handed to the protocol layer (pass-through recorder)
+        from exabgp.reactor.network.connection import Connection
+
+        orig_reader = Connection.reader_async
+
+        async def reader_async(conn_self):
+            fd = conn_self.io._fd if conn_self.io is not None and hasattr(conn_self.io, '_fd') else -1
+            r = await orig_reader(conn_self)
+            world.read_log.setdefault(fd, []).append((world.loop.mono, r[0], r[1], r[4] is not None))
+            return r
+
+        Connection.reader_async = reader_async
 
         # liveness of update generators (pending() is already false while one is half consumed)
         from exabgp.reactor.protocol import Protocol
